@@ -24,7 +24,8 @@ REPO = os.environ.get("VERIF_REPO", "/repo")
 SPEC = os.path.join(VERIF, "spec")
 HARNESS = os.path.join(VERIF, "harness")
 BUILD = os.path.join(VERIF, ".build")
-EVIDENCE = os.path.join(VERIF, "evidence")
+# evidence describes /repo; runs against another tree (VERIF_REPO: seeded changes, older commits) write elsewhere
+EVIDENCE = os.path.join(VERIF, "evidence") if REPO == "/repo" else os.path.join(VERIF, ".build", "evidence-other-tree")
 REPLAYS = os.path.join(EVIDENCE, "replays")
 MODULE = "github.com/hprose/hprose-golang/v3"
 NCPU = os.cpu_count() or 4
